@@ -48,12 +48,16 @@
      log_criteria_homogeneous   the comparisons made by AIC, AICc, KIC, AKICc, MDL between two orders do not
                         depend on a common positive factor of rho (hence those rules are homogeneous as long
                         as the order-0 reference is the criterion's own value)
+     eigen_criteria_shift, eigen_criteria_order   aic_eigen / mdl_eigen exactly as coded (criteria.py): s -> m*s adds the same constant
+                        (2 N ln m, N ln m) to every entry, so every comparison made by numpy.argmin -- the subspace dimension chosen by
+                        eigen() under criteria='aic'/'mdl' -- is unchanged (formula-level model over the reals, positive singular values)
    NOT PROVED here (search on the implementation only): arma_estimate / ma (no merged model), DaniellPeriodogram,
-   arcovar_marple / modcovar_marple recursions; that the argmin of aic_eigen / mdl_eigen (logarithmic, an oracle argument
-   [amin] of the Eigen model) is invariant; that numpy's svd / lstsq return related factorisations for x and c*x (the theorems
+   arcovar_marple / modcovar_marple recursions; the link between the real-number model of aic_eigen / mdl_eigen
+   (eigen_criteria_shift, eigen_criteria_order) and the oracle argument [amin] of the Eigen model is by inspection;
+   that numpy's svd / lstsq return related factorisations for x and c*x (the theorems
    are over their specifications); rounding. *)
 From Coq Require Import Reals Lra QArith Qcanon String.
-Require Import Spectrum.Proofs.CriteriaR.
+Require Import Spectrum.Proofs.CriteriaR Spectrum.Proofs.CriteriaEigenR_C03.
 Require Import Spectrum.Theory.Ops Spectrum.Theory.Sum Spectrum.Theory.Vec Spectrum.Theory.Order Spectrum.Theory.Dft
                Spectrum.Model.Levinson Spectrum.Model.Burg Spectrum.Model.Corr Spectrum.Model.Periodogram
                Spectrum.Model.Yule Spectrum.Model.Ls Spectrum.Model.Minvar Spectrum.Model.Mtm Spectrum.Model.Eigen
@@ -283,6 +287,19 @@ Theorem log_criteria_homogeneous (N s r1 r2 k1 k2 : R) : (0 < s -> 0 < r1 -> 0 <
   (MDL N (s * r2) k2 > MDL N (s * r1) k1 <-> MDL N r2 k2 > MDL N r1 k1))%R.
 Proof. exact (log_criteria_scale_invariant N s r1 r2 k1 k2). Qed.
 
+(* criteria.py aic_eigen / mdl_eigen as coded (ak over n-k-1 terms divided by n-k, gk = prod(s[k+1:]**(1/(n-k)))): multiplying the
+   singular values by m > 0 adds the SAME constant to every entry, so every comparison made by numpy.argmin is unchanged *)
+Theorem eigen_criteria_shift (m : R) (s : list R) (N : R) : (0 < m)%R -> allpos s ->
+  aic_eigen (map (Rmult m) s) N = map (fun v => (v + 2 * N * ln m)%R) (aic_eigen s N)
+  /\ mdl_eigen (map (Rmult m) s) N = map (fun v => (v + N * ln m)%R) (mdl_eigen s N).
+Proof. exact (eigen_criteria_shift_thm m s N). Qed.
+
+Theorem eigen_criteria_order (m : R) (s : list R) (N : R) (k j : nat) : (0 < m)%R -> allpos s ->
+  (k < length s - 1)%nat -> (j < length s - 1)%nat ->
+  ((aic_eigen_at (map (Rmult m) s) N k < aic_eigen_at (map (Rmult m) s) N j)%R <-> (aic_eigen_at s N k < aic_eigen_at s N j)%R)
+  /\ ((mdl_eigen_at (map (Rmult m) s) N k < mdl_eigen_at (map (Rmult m) s) N j)%R <-> (mdl_eigen_at s N k < mdl_eigen_at s N j)%R).
+Proof. exact (eigen_criteria_order_thm m s N k j). Qed.
+
 (* non-vacuity: the hypotheses are met by a concrete complex sequence and scalar; and the pre-repair
    order-0 reference (the raw power instead of the criterion value) is NOT homogeneous *)
 Definition c03_x : list QcC := [cz (1,0) (0,0); cz (1,1) (1,0); cz (-1,0) (1,-1); cz (3,-1) (0,0); cz (1,0) (-1,0); cz (-1,-1) (1,-2)]%Z.
@@ -428,3 +445,5 @@ Print Assumptions pclass_scale.
 Print Assumptions class_scale_every_table.
 Print Assumptions class_arma_scale.
 Print Assumptions log_criteria_homogeneous.
+Print Assumptions eigen_criteria_shift.
+Print Assumptions eigen_criteria_order.
